@@ -17,7 +17,10 @@ xsf.py (`init_spectral_lines`), magnetic_ff.py, cromermann.py + xsf/f0_WaasKirf.
    fxrayatstol, atstol) with Q as C- / Fortran-ordered / transposed / strided 2-D arrays and as
    uint8 / int8 / int16 / int32 / uint16 arrays and scalars, entry by entry against the float64 1-D call;
 7. a private table that was read, revised by its owner (seeded) and re-initialised with
-   `init(table, reload=True)` of the four per-table loaders: the full sweep again.
+   `init(table, reload=True)` of the four per-table loaders: the full sweep again;
+8. the alias `M` / `M_Q` of every charge state (the <j0> set where one exists, no attribute where the
+   table has none – Ce3+), and `sweep_f0_reused`: f0 of every entry with ONE array object evaluated,
+   edited in place (`Q += step`, `Q[:] = ...`) and evaluated again, against the Decimal formula.
 """
 from __future__ import annotations
 
@@ -70,6 +73,8 @@ def obs_element(el):
                 v = P.observe(lambda: getattr(rec, jn))
                 d[jn] = v if isinstance(v, str) else [float(x) for x in v]
             d["M"] = P.observe(lambda: rec.M)
+            d["hasM"] = P.observe(lambda: hasattr(rec, "M"))
+            d["MQ"] = P.observe(lambda: [float(v) for v in rec.M_Q(QARR)])
             d["Q"] = {}
             for jn in JNS:
                 if not isinstance(d[jn], str):
@@ -281,6 +286,14 @@ def oracle_element(exp: Expect, z, o):
                 if e is None:
                     if not isinstance(d[jn], str):
                         bad.append(("magnetic_ff[%d].%s" % (q, jn), "no attribute", repr(d[jn][:2])))
+                    if jn == "j0":
+                        # M is the <j0> set under another name: a charge state without a <j0> entry has
+                        # no M either (no attribute), not another order's coefficients
+                        if not isinstance(d.get("M", "X"), str) or d.get("hasM", False) is not False:
+                            bad.append(("magnetic_ff[%d].M" % q, "no attribute",
+                                        repr(d["M"] if isinstance(d["M"], str) else [float(x) for x in d["M"]][:2])))
+                        if not isinstance(d.get("MQ", "X"), str):
+                            bad.append(("magnetic_ff[%d].M_Q" % q, "no attribute / raises", repr(d["MQ"][:2])))
                     continue
                 want = [float(v.frac()) for v in e]
                 if d[jn] != want:
@@ -290,6 +303,12 @@ def oracle_element(exp: Expect, z, o):
                     bad.append(("magnetic_ff[%d].M" % q, repr(want), repr(d["M"])))
                 if len(e) != 7:
                     continue
+                if jn == "j0" and "MQ" in d:
+                    # M_Q evaluates the <j0> set
+                    mq, jq = d["MQ"], d["Q"]["j0"]
+                    if isinstance(mq, str) or len(mq) != len(jq) or not all(
+                            not isinstance(y, str) and close(x, y, rel=1e-12, abs_=1e-15) for x, y in zip(mq, jq)):
+                        bad.append(("magnetic_ff[%d].M_Q" % q, repr(jq), repr(mq)))
                 for Q, got in zip(QS, d["Q"][jn]):
                     ref = ff_decimal(e, Q, jn in ("j0", "J"))
                     if isinstance(got, str) or not close(float(ref), got, rel=1e-11, abs_=1e-13):
@@ -368,6 +387,50 @@ def sweep(run: Run, label, tbl, exp, src, symbols, cromermann, extra=None):
             run.violation("%s of %s is not the table's" % (name, f0_key(symbols[z], q)),
                           dict(extra, table=label, z=z, q=q, observable=name, expected=e, got=g),
                           observable=name, z=z, q=q)
+    sweep_f0_reused(run, label, tbl, exp, symbols, extra)
+
+
+def sweep_f0_reused(run: Run, label, tbl, exp, symbols, extra=None):
+    """real code + oracle: f0 of every element and ion with an entry, asked for the way a scan does - one
+    array object per atom, evaluated, given new values in place (`Q += step`, `Q[:] = ...`) and evaluated
+    again: every answer is the entry's formula at the values passed in that call (50-digit Decimal)"""
+    extra = extra or {}
+    step = run.rng.choice([2.0, 6.0, 11.5])
+    for el in tbl:
+        for q in (0,) + tuple(el.ions):
+            z = el.number
+            e = exp.f0.get(f0_key(symbols[z], q))
+            if e is None:
+                continue
+            run.count(key=(label, "f0-reused", z, q), nontrivial=True, tag="sweep:%s:f0-reused" % label)
+            bad = None
+            try:
+                atom = el if q == 0 else el.ion[q]
+                Q = _np.array([0.0, 1.25, 7.0], dtype=float)
+                stages = []
+                for how in ("first call", "same array, Q += %g" % step, "same array, Q[:] = reversed values"):
+                    if how.startswith("same array, Q +="):
+                        Q += step
+                    elif how.startswith("same array, Q[:]"):
+                        Q[:] = [29.0, 3.5, 0.0]
+                    sent = [float(x) for x in Q]
+                    got = [float(x) for x in atom.xray.f0(Q)]
+                    if [float(x) for x in Q] != sent:
+                        bad = ("f0: the Q array after the call (%s)" % how, repr(sent), repr([float(x) for x in Q]))
+                        break
+                    stages.append((how, sent, got))
+                if bad is None:
+                    for how, sent, got in stages:
+                        want = [float(f0_decimal(e, x / (4 * math.pi))) for x in sent]
+                        if len(got) != len(want) or not all(close(w, g, rel=1e-11) for w, g in zip(want, got)):
+                            bad = ("f0(Q=%r) (%s)" % (sent, how), repr(want), repr(got))
+                            break
+            except Exception as ex:  # noqa
+                bad = ("f0 with a reused array", "values", "X:" + type(ex).__name__)
+            if bad:
+                run.violation("%s of %s is not the table's" % (bad[0], f0_key(symbols[z], q)),
+                              dict(extra, kind="f0-reused", table=label, z=z, q=q, step=step, observable=bad[0],
+                                   expected=bad[1], got=bad[2]), observable="f0-reused", z=z, q=q)
 
 
 # =========================================================================== Q in other containers
